@@ -414,6 +414,20 @@ pub fn histories(out: &mut Out, rng: &mut Rng, n: u64) {
             Op::Collect,
             Op::Withdraw { u: 0, amount: 1_000_000_000 },
         ]) },
+        // reserves imbalanced by 1e16:1 and 1e18:1: the 32-round solver gives up (ConvergeError), every swap must be refused
+        // and change nothing; offers of the scarce asset first
+        History { amp: 1, dp: (6, 6), fees: (0, 0, 0), kinds: [false, false], len: 0, fixed: Some(vec![
+            Op::Provide { u: 0, d: [10u128.pow(22), 1_000_000] },
+            Op::Swap { u: 1, i: 1, x: 100_000, ms: Some(DEC / 2) },
+            Op::Swap { u: 1, i: 1, x: 100, ms: None },
+            Op::Swap { u: 2, i: 0, x: 10u128.pow(16), ms: Some(DEC / 2) },
+        ]) },
+        History { amp: 1000, dp: (6, 6), fees: (DEC / 1000, 3 * DEC / 1000, 0), kinds: [false, true], len: 0, fixed: Some(vec![
+            Op::Provide { u: 0, d: [10u128.pow(24), 1_000_000] },
+            Op::Swap { u: 1, i: 1, x: 100_000, ms: Some(DEC / 2) },
+            Op::Swap { u: 2, i: 0, x: 10u128.pow(18), ms: Some(DEC / 2) },
+            Op::Withdraw { u: 0, amount: 1_000_000 },
+        ]) },
     ];
     for mut h in corpus {
         // the literal LP amount minted to bob in the first corpus history (amp 100, decimals (6,18)): computed once through the hook
